@@ -6,6 +6,8 @@ import (
 	"strings"
 	"time"
 
+	"verif.local/gcsim/model"
+
 	"verif.local/gcsim/simapi"
 	"verif.local/gcsim/simrt"
 )
@@ -22,8 +24,98 @@ func sameViolation(r *simapi.RunResult, want simapi.Violation) bool {
 		if v.Class == want.Class && v.Identity == want.Identity {
 			return true
 		}
+		// the identity of a rule-file finding embeds the scenario shape, which
+		// shrinking changes on purpose: the class decides
+		if v.Class == want.Class && r.Config != nil && r.Config.Kind == "rulefs" {
+			return true
+		}
 	}
 	return false
+}
+
+// ruleCandidates shrinks a C18 scenario: fewer files, default filters, one construction.
+func ruleCandidates(c *simapi.RunConfig) []simapi.RunConfig {
+	var run model.RuleRun
+	if json.Unmarshal(c.Extra, &run) != nil {
+		return nil
+	}
+	var out []simapi.RunConfig
+	add := func(f func(r *model.RuleRun) bool) {
+		var r model.RuleRun
+		b, _ := json.Marshal(run)
+		json.Unmarshal(b, &r)
+		if !f(&r) {
+			return
+		}
+		r.Rebuild()
+		n := cloneCfg(c)
+		n.Extra, _ = json.Marshal(r)
+		out = append(out, n)
+	}
+	setPatterns := func(r *model.RuleRun, pats []string) {
+		r.Scenario.Patterns = pats
+		r.RulesArg = strings.Join(pats, ",")
+	}
+	for i := range run.Specs {
+		i := i
+		if len(run.Specs) > 1 {
+			add(func(r *model.RuleRun) bool {
+				gone := r.Specs[i].Path
+				r.Specs = append(append([]model.RuleFileSpec(nil), r.Specs[:i]...), r.Specs[i+1:]...)
+				var pats []string
+				for _, p := range r.Scenario.Patterns {
+					if strings.TrimSpace(p) != gone {
+						pats = append(pats, strings.TrimSpace(p))
+					}
+				}
+				if len(pats) == 0 {
+					return false
+				}
+				setPatterns(r, pats)
+				return true
+			})
+		}
+		if run.Specs[i].Kind != "valid" {
+			add(func(r *model.RuleRun) bool { r.Specs[i].Kind, r.Specs[i].Fault = "valid", ""; return true })
+		}
+		if len(run.Specs[i].Groups) > 1 && run.Specs[i].Kind != "torn-boundary" {
+			add(func(r *model.RuleRun) bool { r.Specs[i].Groups = r.Specs[i].Groups[:1]; return true })
+		}
+	}
+	if len(run.Scenario.Patterns) > 1 {
+		for i := range run.Scenario.Patterns {
+			i := i
+			add(func(r *model.RuleRun) bool {
+				var pats []string
+				for k, p := range r.Scenario.Patterns {
+					if k != i {
+						pats = append(pats, strings.TrimSpace(p))
+					}
+				}
+				setPatterns(r, pats)
+				return true
+			})
+		}
+	}
+	if run.Scenario.Enable != "<all>" {
+		add(func(r *model.RuleRun) bool { r.Scenario.Enable = "<all>"; return true })
+	}
+	if run.Scenario.Disable != "" {
+		add(func(r *model.RuleRun) bool { r.Scenario.Disable = ""; return true })
+	}
+	if run.Scenario.FailOn != "" {
+		add(func(r *model.RuleRun) bool { r.Scenario.FailOn = ""; return true })
+	}
+	if run.Scenario.FailOnError {
+		add(func(r *model.RuleRun) bool { r.Scenario.FailOnError = false; return true })
+	}
+	if run.Builds > 1 {
+		add(func(r *model.RuleRun) bool { r.Builds = 1; return true })
+	}
+	if strings.ContainsAny(run.RulesArg, " ") {
+		add(func(r *model.RuleRun) bool { setPatterns(r, r.Scenario.Patterns); return true })
+	}
+	return out
 }
 
 // argIndex finds the flag with the given name ("enable", "concurrency", ...).
@@ -40,6 +132,9 @@ func argIndex(args []string, name string) int {
 
 // candidates proposes strictly simpler configurations, most aggressive first.
 func candidates(c *simapi.RunConfig, vio simapi.Violation) []simapi.RunConfig {
+	if c.Kind == "rulefs" {
+		return ruleCandidates(c)
+	}
 	var out []simapi.RunConfig
 	add := func(f func(n *simapi.RunConfig) bool) {
 		n := cloneCfg(c)
@@ -253,8 +348,9 @@ func (c *checkCtx) minimiseAndConfirm(rp *report, shrink bool) {
 			if sameViolation(r, rp.Vio) {
 				rp.Confirmed = true
 				for _, v := range r.Violations {
-					if v.Class == rp.Vio.Class && v.Identity == rp.Vio.Identity {
+					if v.Class == rp.Vio.Class && (v.Identity == rp.Vio.Identity || (r.Config != nil && r.Config.Kind == "rulefs")) {
 						rp.Vio.Detail = v.Detail
+						break
 					}
 				}
 				if r.Config != nil {
